@@ -16,7 +16,9 @@ from harness import core
 PARAMS = [(0.15, 0.1, 20.0, 0.01), (0.30, 0.1, 20.0, 0.01), (0.2, 0.1, 8.0, 0.3), (0.1, 0.05, 100.0, 0.02),
           (0.2, 0.1, float("inf"), 0.01), (0.2, 0.25, 0.4, 0.01),
           # pixel sizes for which 1/(N delta) and the grid of frequencies are not exactly representable
-          (0.2, 0.3, 20.0, 0.01), (0.15, 0.07, 30.0, 0.01), (0.2, 0.7, 50.0, 0.05)]
+          (0.2, 0.3, 20.0, 0.01), (0.15, 0.07, 30.0, 0.01), (0.2, 0.7, 50.0, 0.05),
+          # inner scale far below the pixel (l0 / delta = 5e-4, 2e-6): the cut-off factor is close to, but not, 1
+          (0.2, 0.1, 20.0, 5e-5), (0.2, 0.5, 20.0, 1e-6)]
 
 
 class ProtocolChanged(Exception):
